@@ -62,7 +62,8 @@ func RunningNbio(dump string) string {
 // Verdicts never rest on elapsed time alone:
 //
 //	spin     - no progress for >= 15 s while the process burns > 25 % of a
-//	           core in each of three consecutive 1 s windows
+//	           core in each of three consecutive 1 s windows and a goroutine
+//	           is running inside nbio frames
 //	deadlock - no progress for >= 30 s, process idle, and the same goroutines
 //	           sit blocked on a lock inside nbio frames in two dumps 5 s apart
 //	watchdog - max elapsed without either predicate: inconclusive
@@ -105,6 +106,12 @@ func Guard(max time.Duration, progress func() int64, f func()) GuardVerdict {
 		idle := now.Sub(lastChange)
 		if idle >= 15*time.Second && busy >= 3 {
 			d := Stacks()
+			if RunningNbio(d) == "" {
+				// the processor time is the harness' own (a long check over a large history): not a
+				// state of the code under test; keep watching
+				busy = 0
+				continue
+			}
 			return GuardVerdict{Kind: "spin", Detail: fmt.Sprintf("no harness-visible progress for %.0f s while the process used %.0f%% of a core (3 consecutive 1 s windows > 25%%); running goroutines inside nbio:\n%s", idle.Seconds(), frac*100, RunningNbio(d))}
 		}
 		if idle >= 30*time.Second && busy == 0 {
